@@ -617,6 +617,100 @@ func ApplyLeafEdit(n *dt.Node, k int) string {
 	return applyTyped(n, k-len(otherTags))
 }
 
+// NumInnerEdits is the size of the deterministic structural edit table of an inner
+// (constructed or wrapped) node.
+const NumInnerEdits = 14
+
+// ApplyInnerEdit applies structural edit k (0 <= k < NumInnerEdits) to an inner
+// node: its encoded body cut to 1 or 2 octets or shortened by one (a truncated TLV
+// inside an intact wrapper - the lengths outside stay consistent), a stray octet
+// appended, emptied, first / last child deleted, first child duplicated, children
+// reversed, SEQUENCE <-> SET, children wrapped in one more SEQUENCE, replaced by
+// NULL, constructed bit dropped, first child hoisted in place of the node.
+func ApplyInnerEdit(n *dt.Node, k int) string {
+	raw := func(b []byte) {
+		n.Children, n.Wrapped = nil, false
+		n.Content = append([]byte{}, b...)
+	}
+	body := n.Body()
+	switch k {
+	case 0:
+		if len(body) > 0 {
+			raw(body[:1])
+		} else {
+			raw([]byte{0x0c})
+		}
+		return "body-1-octet"
+	case 1:
+		if len(body) > 2 {
+			raw(body[:2])
+		} else {
+			raw([]byte{0x0c, 0x05})
+		}
+		return "body-2-octets"
+	case 2:
+		if len(body) > 0 {
+			raw(body[:len(body)-1])
+		}
+		return "body-minus-1"
+	case 3:
+		raw(append(append([]byte{}, body...), 0x00))
+		return "body-plus-octet"
+	case 4:
+		n.Children, n.Content = []*dt.Node{}, nil
+		return "emptied"
+	case 5:
+		if len(n.Children) > 0 {
+			n.Children = append([]*dt.Node{}, n.Children[1:]...)
+		}
+		return "drop-first-child"
+	case 6:
+		if len(n.Children) > 0 {
+			n.Children = append([]*dt.Node{}, n.Children[:len(n.Children)-1]...)
+		}
+		return "drop-last-child"
+	case 7:
+		if len(n.Children) > 0 {
+			n.Children = append([]*dt.Node{n.Children[0].Clone()}, n.Children...)
+		}
+		return "dup-first-child"
+	case 8:
+		ch := append([]*dt.Node{}, n.Children...)
+		for i, j := 0, len(ch)-1; i < j; i, j = i+1, j-1 {
+			ch[i], ch[j] = ch[j], ch[i]
+		}
+		n.Children = ch
+		return "reverse-children"
+	case 9:
+		if n.Class == 0 && (n.Tag == 16 || n.Tag == 17) && !n.Wrapped {
+			n.Tag = 33 - n.Tag
+		}
+		return "seq-set"
+	case 10:
+		if !n.Wrapped {
+			n.Children = []*dt.Node{dt.Seq(n.Children...)}
+		} else {
+			n.Children = []*dt.Node{dt.Seq(n.Children...)}
+		}
+		return "nest-in-sequence"
+	case 11:
+		n.Class, n.Tag, n.Constructed, n.Wrapped, n.Children, n.Content = 0, 5, false, false, nil, []byte{}
+		return "to-null"
+	case 12:
+		if n.Constructed {
+			raw(body)
+			n.Constructed = false
+		}
+		return "primitive-bit"
+	default:
+		if len(n.Children) > 0 && !n.Wrapped {
+			c := n.Children[0]
+			*n = *c.Clone()
+		}
+		return "hoist-first-child"
+	}
+}
+
 // RandomEdit performs one rapid-drawn edit on the tree (in place) and returns
 // the operator name.
 func RandomEdit(t *rapid.T, root *dt.Node) string {
